@@ -228,6 +228,33 @@ def trun : Nat → List Nat → TSys → TSys
       | some t' => trun fuel choices.tail t'
       | none => t
 
+/-! ### the trap action -/
+
+/-- the body of the trap action as far as the run varies it: `echo …` (any commands that end normally), commands that
+    look at `$?` first (`probe`), `return r` (inside a function: `Divert::Return`) -/
+inductive TrapAct where
+  | plain
+  | probe (before : Nat)
+  | ret (r : Nat)
+  deriving DecidableEq, Repr
+
+/-- `run_trap` → `Result`: `Continue(())`, or `Break(Divert::Return(Some(r)))` for `return r` -/
+def TrapAct.divert : TrapAct → Option Nat
+  | .ret r => some r
+  | _ => none
+
+/-- `$?` as the action sees it when it starts: the value before the trap was taken (XCU `trap`: "the value of `$?` …
+    shall be the value it had before the trap action was executed" on exit; on entry the built-in has not set it yet) -/
+def TrapAct.entryStatus (before : Nat) : TrapAct → Nat := fun _ => before
+
+/-- `Command::execute` of `wait`: `Err(Trapped(signal, divert)) => Result::with_exit_status_and_divert(ExitStatus::from(signal), divert)`
+    — the exit status of the built-in is that of the SIGNAL whatever the action's last command returned; a `return r`
+    in the action makes the enclosing function return `r` at once (the rest of its body is skipped) -/
+def trappedResult (offset σ : Nat) (act : TrapAct) : Nat × Option Nat := (σ + offset, act.divert)
+
+/-- `$?` after the command that called `wait` inside a function body: the function's status -/
+def statusAfter (res : Nat × Option Nat) : Nat := res.2.getD res.1
+
 /-! ### the operand loop and the operand-less form on top of it -/
 
 /-- how the whole built-in ends: per-operand statuses (the exit status is the last), or `Err(Trapped(sig, _))`
